@@ -74,6 +74,10 @@ class Fn:
             inst = [m for m in ops if not any('auto' in t for t in astload.param_types(m))]
             if self.lambda_select is not None:
                 inst = [m for m in inst if self.lambda_select(m)]
+            own = astload.lambda_call_operator(lam)     # the closure's own call operator (nested lambdas are not searched)
+            if own is not None and (self.lambda_select is None or self.lambda_select(own)) \
+                    and not any('auto' in t for t in astload.param_types(own)):
+                inst = [own]
             if not inst:
                 raise ExtractionError(f'{self.cname}: lambda without an instantiated operator()')
             if self.captures and len(inst) > 1:
